@@ -1,4 +1,4 @@
-//go:build !(verif && verifhook_h1)
+//go:build !verif
 
 package c14
 
